@@ -51,6 +51,22 @@ fn line(b: &[u8]) -> String {
 /// the property's observable statement on the real code for one 4-byte word; returns a signature on failure
 fn oracle_word(b: [u8; 4]) -> Option<(&'static str, String, String)> {
     let shape = b[..3].iter().all(|c| c.is_ascii_alphanumeric()) && b[3] == 0;
+    // fast path for the overwhelmingly common class (a mod id): the same four checks without building any text;
+    // anything that does not come out exactly right falls through to the explaining path below
+    if !shape && b != [0, 0, 0, 0] {
+        let ok = std::panic::catch_unwind(|| {
+            match Vehicle::read_le(&mut Cursor::new(&b[..])) {
+                Ok(Vehicle::Mod(id)) if id == u32::from_le_bytes(b) => {
+                    let mut out = [0u8; 4];
+                    let mut c = Cursor::new(&mut out[..]);
+                    let v = Vehicle::Mod(id);
+                    v.write_le(&mut c).is_ok() && out == b && v.is_mod()
+                },
+                _ => false,
+            }
+        });
+        if let Ok(true) = ok { return None; }
+    }
     let r = match read_veh(&b) {
         None => return Some(("c13/decode/panic", "no panic".into(), "panic".into())),
         Some(r) => r,
